@@ -1078,6 +1078,14 @@ def mon_c06(ix: Index):  # noqa: C901, PLR0912
             node = ix.node_of(e["path"])
             if node and node.get("sem") == "most" and e.get("st") != "STARTED":
                 out.append(V("C06", "C06/at-most-once-entered-without-start-after-failure", "%s entered with backend status %s" % (e["path"], e.get("st")), e["i"]))
+    # ... and none was entered BEFORE the failing call either while its START was only queued (the record then dies with that call)
+    for e in evs:
+        if e["i"] < fail["i"] and e["kind"] == "fn_enter" and e.get("fnkind") == "step" and not e.get("late"):
+            node = ix.node_of(e["path"])
+            if node and node.get("sem") == "most" and e.get("st") != "STARTED":
+                started_later = any(a.get("u") and a["u"]["Id"] == e.get("oid") and a["u"]["Action"] == "START" and a["seq"] > e.get("aseq", 0) and a["inv"] == inv for a in ix.applied)
+                if not started_later:
+                    out.append(V("C06", "C06/at-most-once-entered-without-start-after-failure", "%s entered with backend status %s, its START was still queued when the call carrying it failed" % (e["path"], e.get("st")), e["i"]))
     end = next((x for x in evs if x["kind"] == "inv_end_summary"), None)
     hang = next((x for x in evs if x["kind"] == "hang"), None)
     spin = next((x for x in evs if x["kind"] == "spin"), None)
